@@ -94,6 +94,26 @@ def base_variants(rng, ast, per_node_annot=2):
         for fault in 'def':
             for text in rng.sample(BAD['base'][fault], min(per_node_annot, len(BAD['base'][fault]))):
                 out.append((fault, pc, variant(lambda fl, i=i, text=text: fl[i][0].update(annot=text))))
+    # (a) the unclosed index as the LAST of many markers on one node: the node first gets 3-6 proper ring bonds to later,
+    # non-adjacent nodes (%nn markers), then the dangling one
+    plain = [i for i, (e, depth, unit, parent) in enumerate(flat) if e['mult'] == 1 and not e.get('force_mult') and not unit
+             and not any(b['mult'] > 1 for b in e['branches'])]
+    for i in plain[:2]:
+        adj = {k for k, x in enumerate(flat) if x[3] is flat[i][0] or flat[i][3] is x[0]}
+        ringed = {k for k, x in enumerate(flat) if {r[1] for r in x[0]['rings']} & {r[1] for r in flat[i][0]['rings']}}
+        later = [j for j in plain if j > i and j not in adj and j not in ringed]
+        if len(later) >= 3 and len(free_pct) >= 8:
+            js = rng.sample(later, min(len(later), rng.randint(3, 6)))
+            ms = rng.sample([m for m in free_pct if m >= 10], len(js) + 1)
+
+            def hub(fl, i=i, js=js, ms=ms):
+                for j, m in zip(js, ms):
+                    fl[i][0]['rings'].append((rng.choice([None, 2, 3]), m, True))
+                    fl[j][0]['rings'].append((None, m, True))
+                    fl[j][0]['rings'].sort(key=lambda r: (r[2] or r[1] >= 10))
+                fl[i][0]['rings'].sort(key=lambda r: (r[2] or r[1] >= 10))
+                fl[i][0]['rings'].append((None, ms[-1], True))
+            out.append(('a', position_class(i, n, flat[i][1], False) + '_last_of_many_markers', variant(hub)))
     # (b) duplicate of an existing ring bond
     pairs = {}
     for i, (e, depth, unit, parent) in enumerate(flat):
